@@ -288,6 +288,14 @@ def mentions_local(e, l):
     return False
 
 
+def mentions_local_named(mir, e, name):
+    """a user variable called `name` (or a projection of it) occurs in e"""
+    for s in walk(e):
+        if s[0] in ("param", "local") and mir.name_of(s[1]) == name:
+            return True
+    return False
+
+
 def strip_casts(e):
     while e[0] == "cast":
         e = e[2]
